@@ -29,8 +29,8 @@ CLAIM = dict(
          "numerically on the implementation's output (the flow lift is cited, DESIGN section 3.7); the solver (scipy odeint/ode) is assumed to "
          "return the initial value as first row. Modelled in Coq: the 17 ODE *_from_graph wrappers (row 0 correspondence on every run); row0/accepts theorems "
          "for the homogeneous and heterogeneous mean field, homogeneous pairwise (partial), compact pairwise, super compact, SIR effective degree (explicit sets) "
-         "and EBCM_from_graph (partial) wrappers, following the code after the fix: commits; one refutation is left (SIS_heterogeneous_pairwise_from_graph with full data, "
-         "ValueError) and is replayed on the code on every run; the other entry points (solver-level functions, SIS effective degree, compact effective degree, "
+         "and EBCM_from_graph (partial) wrappers, following the code after the fix: commits (no refutation is left; acceptance of SIS_heterogeneous_pairwise_from_graph is proved, its row 0 shown on an example); "
+         "the other entry points (solver-level functions, SIS effective degree, compact effective degree, "
          "heterogeneous pairwise, pref-mix, individual/pair based, Attack_rate_*_from_graph) are covered by the oracle (and, for the 17 wrappers, the row-0 correspondence) only.")
 
 TOL0 = 1e-9
@@ -260,9 +260,7 @@ def _wcase(entry, full, ic, tau='1', gamma='1'):
 
 
 # witnesses of the `_refuted` theorems of Props/C06.v (graph path3 = a - b - c), replayed on the code on every run
-WITNESSES = [
-    ('accepts_SIS_heterogeneous_pairwise_from_graph_full_refuted', _wcase('SIS_heterogeneous_pairwise_from_graph', True, {'mode': 'sets', 'I': [0], 'R': None}), 'accept:ValueError'),
-]
+WITNESSES = []      # no _refuted theorem is left in Props/C06.v
 
 
 def known_keys():
